@@ -53,6 +53,20 @@ type CallCtx struct {
 	Call            int
 	Flush           bool // FlushOlderThan / FlushWithOptions / FlushAll
 	LimitConfigured bool // the assembler has a page limit
+	PerConn, Total  int  // the configured limits (0 = none)
+}
+
+// pagesBound is an upper bound of the pages this direction can have queued in call `to`: every segment fed since `from`
+// that reaches beyond stream offset pos, at ceil(len/1900) pages (an empty segment takes one). The assemblers queue at
+// most that (overlaps are trimmed, never expanded).
+func (l *FeedLog) pagesBound(from, to, pos int) int {
+	n := 0
+	for _, f := range l.Feeds {
+		if f.Call >= from && f.Call <= to && (f.Off+f.N > pos || f.N == 0) {
+			n += max(1, (f.N+1899)/1900)
+		}
+	}
+	return n
 }
 
 // DirChecker is the cursor model of one direction of one stream object.
@@ -131,6 +145,17 @@ func (d *DirChecker) Deliver(cc CallCtx, skip int, start, end bool, saved int, a
 		}
 		if !cc.Flush {
 			d.LimitSkips++
+			// "only when a flush or buffer limit forces data out": with only a per-connection limit configured, the
+			// limit can only have been reached if this direction could have that many pages queued at all
+			if cc.PerConn > 0 && cc.Total == 0 && !isReasm { // classic assembler only: its queue is exactly the fed, undelivered segments
+				b := d.Log.pagesBound(d.Created, cc.Call, d.pos)
+				if isReasm && d.keptSet {
+					b += (len(d.kept)+1899)/1900 + 1 // bytes kept for the stream are held in pages of the same half
+				}
+				if b < cc.PerConn {
+					return "gap-released-below-the-limit", fmt.Sprintf("skip=%d announced inside an Assemble call although this direction can hold at most %d queued pages, limit %d", skip, b, cc.PerConn)
+				}
+			}
 		}
 		if d.pos+skip > len(d.S) {
 			return "skip-beyond-stream", fmt.Sprintf("skip=%d at stream offset %d, stream has %d bytes", skip, d.pos, len(d.S))
